@@ -1,13 +1,424 @@
 // Unit chain_trim (C03): Chain::trim of src/repository/resources/chain.rs yields the
-// intersection of the two chains (mathematical view), in canonical form.
+// intersection of the two chains (mathematical view), in canonical form; Ok(()) exactly when
+// self is already a subset of other.
 use vstd::prelude::*;
 use vstd::std_specs::cmp::*;
+use vstd::std_specs::iter::IteratorSpec;
 use core::cmp::Ordering;
 use core::cmp::{min, max};
 
 verus! {
 
 //@include shared/chain_env.v.rs
+
+// ---- assumed contract of std (listed in chain_trim.trusted) -------------------------------
+// `impl<T: Clone> From<&[T]> for Vec<T>` is `s.to_vec()`: element-wise clone, same length.
+pub assume_specification<'a, T: Clone> [ <Vec<T> as core::convert::From<&'a [T]>>::from ] (s: &[T]) -> (r: Vec<T>)
+    ensures lem::clone_seq(s@, r@);
+
+pub mod lem {
+use super::*;
+
+// ---- specification vocabulary of the trim loop ---------------------------------------------
+pub open spec fn clone_seq<T: Clone>(a: Seq<T>, v: Seq<T>) -> bool {
+    a.len() == v.len() && forall|i: int| 0 <= i < a.len() ==> cloned(#[trigger] a[i], v[i])
+}
+/// the slice iterator `rem` (prophesied remaining items) is a suffix walk over `s`
+pub open spec fn iter_at<T>(rem: Seq<&T>, s: Seq<T>) -> bool {
+    rem.len() <= s.len() && forall|j: int| 0 <= j < rem.len() ==> *(#[trigger] rem[j]) == s[s.len() - rem.len() + j]
+}
+/// the blocks accumulated so far: a prefix of self (by index) or the vector being built
+pub open spec fn acc_of<T: Block>(res: Result<usize, Vec<T>>, slf: Seq<T>) -> Seq<T> {
+    match res { Ok(i) => slf.subrange(0, i as int), Err(v) => v@ }
+}
+/// acc is canonical and denotes self ∩ other
+pub open spec fn final_ok<T: Block>(slf: Seq<T>, oth: Seq<T>, acc: Seq<T>) -> bool {
+    &&& canonical(acc)
+    &&& forall|x: int| #[trigger] in_view(acc, x) <==> (in_view(slf, x) && in_view(oth, x))
+}
+pub open spec fn final_err<T: Block>(slf: Seq<T>, oth: Seq<T>, acc: Seq<T>) -> bool {
+    final_ok(slf, oth, acc) && !view_subset(slf, oth)
+}
+/// Loop invariant.  si / oi: index of the current self / other block; [lo, hi] the unprocessed
+/// part of self[si]; acc the blocks produced so far; ok: no trimming was necessary so far.
+pub closed spec fn inv<T: Block>(slf: Seq<T>, oth: Seq<T>, si: int, oi: int, lo: int, hi: int, ok: bool, acc: Seq<T>) -> bool {
+    &&& canonical(slf)
+    &&& canonical(oth)
+    &&& 0 <= si < slf.len()
+    &&& 0 <= oi < oth.len()
+    &&& slf[si].lo() <= lo <= hi
+    &&& hi == slf[si].hi()
+    &&& (oi > 0 ==> oth[oi - 1].hi() < lo)
+    &&& canonical(acc)
+    &&& (forall|x: int| #[trigger] in_view(acc, x) <==> (in_view(slf, x) && in_view(oth, x) && x < lo))
+    &&& (acc.len() > 0 ==> acc.last().hi() < lo
+            && (acc.last().hi() + 1 < lo || acc.last().hi() + 1 < oth[oi].lo() || acc.last().hi() == oth[oi].hi()))
+    &&& (ok ==> lo == slf[si].lo() && acc == slf.subrange(0, si))
+    &&& (!ok ==> !view_subset(slf, oth))
+}
+
+/// the length of a slice fits in usize (vstd: `s.len()` in spec mode is a usize equal to s@.len())
+pub proof fn lemma_slice_len<T>(s: &[T])
+    ensures s@.len() <= usize::MAX,
+{
+    assert(s.len() == s@.len());
+}
+
+// ---- basic lemmas over in_view / canonical ---------------------------------------------------
+pub proof fn lemma_in_block<T: Block>(s: Seq<T>, i: int, x: int)
+    requires 0 <= i < s.len(), s[i].lo() <= x <= s[i].hi(),
+    ensures in_view(s, x),
+{}
+
+pub proof fn lemma_locate<T: Block>(s: Seq<T>, x: int) -> (i: int)
+    requires in_view(s, x),
+    ensures 0 <= i < s.len(), s[i].lo() <= x <= s[i].hi(),
+{
+    choose|i: int| 0 <= i < s.len() && (#[trigger] s[i]).lo() <= x <= s[i].hi()
+}
+
+/// in a canonical chain blocks are ordered (non-strict index order gives non-strict bounds)
+pub proof fn lemma_ordered<T: Block>(s: Seq<T>, i: int, j: int)
+    requires canonical(s), 0 <= i <= j < s.len(),
+    ensures s[i].lo() <= s[j].lo(), s[i].hi() <= s[j].hi(), s[i].lo() <= s[i].hi(),
+            i < j ==> s[i].hi() + 1 < s[j].lo(),
+{
+    if i < j { assert(s[i].hi() + 1 < s[j].lo()); }
+}
+
+/// a point above the end of block i-1 and not above the end of block i can only be in block i
+pub proof fn lemma_locate_at<T: Block>(s: Seq<T>, i: int, x: int)
+    requires canonical(s), 0 <= i < s.len(), i > 0 ==> s[i - 1].hi() < x, x <= s[i].hi(),
+    ensures in_view(s, x) <==> s[i].lo() <= x,
+{
+    if in_view(s, x) {
+        let j = lemma_locate(s, x);
+        if j < i { lemma_ordered(s, j, i - 1); }
+        if j > i { lemma_ordered(s, i, j); }
+    } else if s[i].lo() <= x {
+        lemma_in_block(s, i, x);
+    }
+}
+
+/// a point above the end of block i and below the start of block i+1 (if any) is in no block
+pub proof fn lemma_gap<T: Block>(s: Seq<T>, i: int, x: int)
+    requires canonical(s), 0 <= i < s.len(), s[i].hi() < x, i + 1 < s.len() ==> x < s[i + 1].lo(),
+    ensures !in_view(s, x),
+{
+    if in_view(s, x) {
+        let j = lemma_locate(s, x);
+        if j <= i { lemma_ordered(s, j, i); }
+        if j > i { lemma_ordered(s, i + 1, j); }
+    }
+}
+
+/// a point below the start of block 0 is in no block
+pub proof fn lemma_below_first<T: Block>(s: Seq<T>, x: int)
+    requires canonical(s), s.len() > 0 ==> x < s[0].lo(),
+    ensures !in_view(s, x),
+{
+    if in_view(s, x) {
+        let j = lemma_locate(s, x);
+        lemma_ordered(s, 0, j);
+    }
+}
+
+pub proof fn lemma_push_view<T: Block>(acc: Seq<T>, b: T, x: int)
+    ensures in_view(acc.push(b), x) <==> (in_view(acc, x) || b.lo() <= x <= b.hi()),
+{
+    let p = acc.push(b);
+    if in_view(p, x) {
+        let j = lemma_locate(p, x);
+        if j < acc.len() { assert(p[j] == acc[j]); lemma_in_block(acc, j, x); }
+        else { assert(p[j] == b); }
+    }
+    if in_view(acc, x) {
+        let j = lemma_locate(acc, x);
+        assert(p[j] == acc[j]);
+        lemma_in_block(p, j, x);
+    }
+    if b.lo() <= x <= b.hi() {
+        assert(p[acc.len() as int] == b);
+        lemma_in_block(p, acc.len() as int, x);
+    }
+}
+
+pub proof fn lemma_push_canonical<T: Block>(acc: Seq<T>, b: T)
+    requires canonical(acc), b.lo() <= b.hi(), acc.len() > 0 ==> acc.last().hi() + 1 < b.lo(),
+    ensures canonical(acc.push(b)),
+{
+    let p = acc.push(b);
+    assert forall|i: int| 0 <= i < p.len() implies (#[trigger] p[i]).lo() <= p[i].hi() by {
+        if i < acc.len() { assert(p[i] == acc[i]); }
+    }
+    assert forall|i: int, j: int| 0 <= i < j < p.len() implies (#[trigger] p[i]).hi() + 1 < (#[trigger] p[j]).lo() by {
+        assert(p[i] == acc[i]);
+        if j < acc.len() { assert(p[j] == acc[j]); }
+        else { lemma_ordered(acc, i, acc.len() - 1); }
+    }
+}
+
+/// the first k blocks of a canonical chain: canonical, and exactly the part of the view below block k
+pub proof fn lemma_prefix<T: Block>(s: Seq<T>, k: int)
+    requires canonical(s), 0 <= k <= s.len(),
+    ensures
+        canonical(s.subrange(0, k)),
+        forall|x: int| #[trigger] in_view(s.subrange(0, k), x) <==> (in_view(s, x) && (k < s.len() ==> x < s[k].lo())),
+{
+    let p = s.subrange(0, k);
+    assert forall|x: int| #[trigger] in_view(p, x) <==> (in_view(s, x) && (k < s.len() ==> x < s[k].lo())) by {
+        if in_view(p, x) {
+            let j = lemma_locate(p, x);
+            assert(p[j] == s[j]);
+            lemma_in_block(s, j, x);
+            if k < s.len() { lemma_ordered(s, j, k); }
+        }
+        if in_view(s, x) && (k < s.len() ==> x < s[k].lo()) {
+            let j = lemma_locate(s, x);
+            if j >= k { lemma_ordered(s, k, j); }
+            assert(p[j] == s[j]);
+            lemma_in_block(p, j, x);
+        }
+    }
+}
+
+/// an element-wise clone of a chain has the same bounds, hence the same view and canonicity
+pub proof fn lemma_clone_seq<T: Block>(a: Seq<T>, v: Seq<T>)
+    requires clone_seq(a, v),
+    ensures
+        canonical(a) ==> canonical(v),
+        forall|x: int| #[trigger] in_view(v, x) <==> in_view(a, x),
+        a.len() == v.len(),
+        a.len() > 0 ==> a.last().hi() == v.last().hi(),
+{
+    T::ord_law();
+    assert forall|i: int| 0 <= i < a.len() implies (#[trigger] v[i]).lo() == a[i].lo() && v[i].hi() == a[i].hi() by {
+        assert(cloned(a[i], v[i]));
+    }
+    assert forall|x: int| #[trigger] in_view(v, x) <==> in_view(a, x) by {
+        if in_view(v, x) { let j = lemma_locate(v, x); lemma_in_block(a, j, x); }
+        if in_view(a, x) { let j = lemma_locate(a, x); lemma_in_block(v, j, x); }
+    }
+    if canonical(a) {
+        assert forall|i: int, j: int| 0 <= i < j < v.len() implies (#[trigger] v[i]).hi() + 1 < (#[trigger] v[j]).lo() by {
+            lemma_ordered(a, i, j);
+        }
+    }
+}
+
+// ---- one lemma per loop step ---------------------------------------------------------------------
+pub proof fn lemma_init<T: Block>(slf: Seq<T>, oth: Seq<T>)
+    requires canonical(slf), canonical(oth), slf.len() > 0, oth.len() > 0,
+    ensures inv(slf, oth, 0, 0, slf[0].lo(), slf[0].hi(), true, slf.subrange(0, 0)),
+{
+    let acc = slf.subrange(0, 0);
+    lemma_prefix(slf, 0);
+}
+
+/// other[oi] lies entirely below the unprocessed part: advance other, or stop if it was the last
+pub proof fn lemma_adv_other<T: Block>(slf: Seq<T>, oth: Seq<T>, si: int, oi: int, lo: int, hi: int, ok: bool, acc: Seq<T>)
+    requires inv(slf, oth, si, oi, lo, hi, ok, acc), oth[oi].hi() < lo,
+    ensures
+        oi + 1 < oth.len() ==> inv(slf, oth, si, oi + 1, lo, hi, ok, acc),
+        oi + 1 == oth.len() ==> final_ok(slf, oth, acc) && !view_subset(slf, oth),
+{
+    if oi + 1 < oth.len() {
+        lemma_ordered(oth, oi, oi + 1);
+    } else {
+        assert forall|x: int| #[trigger] in_view(acc, x) <==> (in_view(slf, x) && in_view(oth, x)) by {
+            if in_view(oth, x) { let j = lemma_locate(oth, x); lemma_ordered(oth, j, oi); }
+        }
+        lemma_in_block(slf, si, lo);
+        lemma_gap(oth, oi, lo);
+    }
+}
+
+/// self[si]'s unprocessed part is covered by other[oi] and nothing was trimmed so far
+pub proof fn lemma_covered_ok<T: Block>(slf: Seq<T>, oth: Seq<T>, si: int, oi: int, lo: int, hi: int)
+    requires
+        inv(slf, oth, si, oi, lo, hi, true, slf.subrange(0, si)),
+        oth[oi].lo() <= lo, hi <= oth[oi].hi(),
+    ensures
+        si + 1 < slf.len() ==> inv(slf, oth, si + 1, oi, slf[si + 1].lo(), slf[si + 1].hi(), true, slf.subrange(0, si + 1)),
+        si + 1 == slf.len() ==> view_subset(slf, oth),
+{
+    let acc = slf.subrange(0, si);
+    let acc2 = slf.subrange(0, si + 1);
+    lemma_prefix(slf, si + 1);
+    // everything of self up to and including block si is in other
+    assert forall|x: int| in_view(acc2, x) implies in_view(oth, x) by {
+        let j = lemma_locate(acc2, x);
+        assert(acc2[j] == slf[j]);
+        if j < si {
+            assert(acc[j] == slf[j]);
+            lemma_in_block(acc, j, x);
+        } else {
+            lemma_in_block(oth, oi, x);
+        }
+    }
+    if si + 1 < slf.len() {
+        lemma_ordered(slf, si, si + 1);
+        assert(acc2.last() == slf[si]);
+    }
+}
+
+/// self[si]'s unprocessed part [lo, hi] is covered by other[oi]; b = [lo, hi] is pushed
+pub proof fn lemma_covered_err<T: Block>(slf: Seq<T>, oth: Seq<T>, si: int, oi: int, lo: int, hi: int, acc: Seq<T>, b: T)
+    requires
+        inv(slf, oth, si, oi, lo, hi, false, acc),
+        lo <= oth[oi].hi(), oth[oi].lo() <= lo, hi <= oth[oi].hi(),
+        b.lo() == lo, b.hi() == hi,
+    ensures
+        si + 1 < slf.len() ==> inv(slf, oth, si + 1, oi, slf[si + 1].lo(), slf[si + 1].hi(), false, acc.push(b)),
+        si + 1 == slf.len() ==> final_err(slf, oth, acc.push(b)),
+{
+    lemma_keep(slf, oth, si, oi, lo, hi, acc, b);
+}
+
+/// pushing b = [max(lo, other[oi].lo), min(hi, other[oi].hi)] (non-empty) onto acc:
+/// canonical, and the view grows by exactly self ∩ other ∩ [lo, b.hi]
+pub proof fn lemma_push_step<T: Block>(slf: Seq<T>, oth: Seq<T>, si: int, oi: int, lo: int, hi: int, acc: Seq<T>, b: T)
+    requires
+        inv(slf, oth, si, oi, lo, hi, false, acc),
+        lo <= oth[oi].hi(), oth[oi].lo() <= hi,
+        b.lo() == (if lo >= oth[oi].lo() { lo } else { oth[oi].lo() }),
+        b.hi() == (if hi <= oth[oi].hi() { hi } else { oth[oi].hi() }),
+    ensures
+        canonical(acc.push(b)),
+        acc.push(b).last() == b,
+        forall|x: int| #[trigger] in_view(acc.push(b), x) <==> (in_view(slf, x) && in_view(oth, x) && x <= b.hi()),
+{
+    let p = acc.push(b);
+    lemma_ordered(oth, oi, oi);
+    lemma_push_canonical(acc, b);
+    assert forall|x: int| #[trigger] in_view(p, x) <==> (in_view(slf, x) && in_view(oth, x) && x <= b.hi()) by {
+        lemma_push_view(acc, b, x);
+        if b.lo() <= x <= b.hi() {
+            lemma_in_block(slf, si, x);
+            lemma_in_block(oth, oi, x);
+        }
+        if in_view(slf, x) && in_view(oth, x) && lo <= x <= b.hi() {
+            lemma_locate_at(oth, oi, x);
+        }
+    }
+}
+
+/// keep-and-advance-self: b as in lemma_push_step with b.hi == hi
+pub proof fn lemma_keep<T: Block>(slf: Seq<T>, oth: Seq<T>, si: int, oi: int, lo: int, hi: int, acc: Seq<T>, b: T)
+    requires
+        inv(slf, oth, si, oi, lo, hi, false, acc),
+        lo <= oth[oi].hi(), oth[oi].lo() <= hi, hi <= oth[oi].hi(),
+        b.lo() == (if lo >= oth[oi].lo() { lo } else { oth[oi].lo() }), b.hi() == hi,
+    ensures
+        si + 1 < slf.len() ==> inv(slf, oth, si + 1, oi, slf[si + 1].lo(), slf[si + 1].hi(), false, acc.push(b)),
+        si + 1 == slf.len() ==> final_err(slf, oth, acc.push(b)),
+{
+    let p = acc.push(b);
+    lemma_push_step(slf, oth, si, oi, lo, hi, acc, b);
+    lemma_self_done(slf, oth, si, oi, hi, p);
+}
+
+/// all of self ∩ other up to hi = self[si].hi is in p: move on to self[si+1] or finish
+pub proof fn lemma_self_done<T: Block>(slf: Seq<T>, oth: Seq<T>, si: int, oi: int, hi: int, p: Seq<T>)
+    requires
+        canonical(slf), canonical(oth), canonical(p), 0 <= si < slf.len(), 0 <= oi < oth.len(),
+        hi == slf[si].hi(),
+        oi > 0 ==> oth[oi - 1].hi() < hi,
+        forall|x: int| #[trigger] in_view(p, x) <==> (in_view(slf, x) && in_view(oth, x) && x <= hi),
+        p.len() > 0 ==> p.last().hi() <= hi,
+        !view_subset(slf, oth),
+    ensures
+        si + 1 < slf.len() ==> inv(slf, oth, si + 1, oi, slf[si + 1].lo(), slf[si + 1].hi(), false, p),
+        si + 1 == slf.len() ==> final_err(slf, oth, p),
+{
+    if si + 1 < slf.len() {
+        lemma_ordered(slf, si, si + 1);
+        let lo2 = slf[si + 1].lo();
+        assert forall|x: int| #[trigger] in_view(p, x) <==> (in_view(slf, x) && in_view(oth, x) && x < lo2) by {
+            if in_view(slf, x) && x < lo2 && x > hi { lemma_gap(slf, si, x); }
+        }
+    } else {
+        assert forall|x: int| #[trigger] in_view(p, x) <==> (in_view(slf, x) && in_view(oth, x)) by {
+            if in_view(slf, x) { let j = lemma_locate(slf, x); lemma_ordered(slf, j, si); }
+        }
+    }
+}
+
+/// first trimming step: the index result is replaced by a clone of the prefix
+pub proof fn lemma_to_err<T: Block>(slf: Seq<T>, oth: Seq<T>, si: int, oi: int, lo: int, hi: int, v: Seq<T>)
+    requires
+        inv(slf, oth, si, oi, lo, hi, true, slf.subrange(0, si)),
+        clone_seq(slf.subrange(0, si), v),
+        lo <= oth[oi].hi(), !(oth[oi].lo() <= lo && hi <= oth[oi].hi()),
+    ensures inv(slf, oth, si, oi, lo, hi, false, v),
+{
+    let acc = slf.subrange(0, si);
+    lemma_clone_seq(acc, v);
+    assert forall|x: int| #[trigger] in_view(v, x) <==> (in_view(slf, x) && in_view(oth, x) && x < lo) by {
+        assert(in_view(v, x) <==> in_view(acc, x));
+    }
+    // a point of self that is not in other
+    lemma_ordered(oth, oi, oi);
+    if lo < oth[oi].lo() {
+        lemma_in_block(slf, si, lo);
+        lemma_locate_at(oth, oi, lo);
+    } else {
+        let x = oth[oi].hi() + 1;
+        lemma_in_block(slf, si, x);
+        if oi + 1 < oth.len() { lemma_ordered(oth, oi, oi + 1); }
+        lemma_gap(oth, oi, x);
+    }
+}
+
+/// the else branch: self[si]'s unprocessed part is not covered by other[oi] (which does not end
+/// below it); `keep` is pushed if present, then either `redo` replaces the unprocessed part or
+/// self advances
+pub proof fn lemma_else<T: Block>(slf: Seq<T>, oth: Seq<T>, si: int, oi: int, lo: int, hi: int, acc: Seq<T>, keep: Option<T>, redo: Option<int>)
+    requires
+        inv(slf, oth, si, oi, lo, hi, false, acc),
+        lo <= oth[oi].hi(), !(oth[oi].lo() <= lo && hi <= oth[oi].hi()),
+        hi < oth[oi].lo() ==> keep.is_none() && redo.is_none(),
+        oth[oi].lo() <= hi ==> keep.is_some()
+            && keep.unwrap().lo() == (if lo >= oth[oi].lo() { lo } else { oth[oi].lo() })
+            && keep.unwrap().hi() == (if hi <= oth[oi].hi() { hi } else { oth[oi].hi() }),
+        oth[oi].lo() <= hi <= oth[oi].hi() ==> redo.is_none(),
+        oth[oi].hi() < hi ==> redo == Some(oth[oi].hi() + 1),
+    ensures
+        ({
+            let acc2 = match keep { Some(b) => acc.push(b), None => acc };
+            match redo {
+                Some(l) => inv(slf, oth, si, oi, l, hi, false, acc2),
+                None => (si + 1 < slf.len() ==> inv(slf, oth, si + 1, oi, slf[si + 1].lo(), slf[si + 1].hi(), false, acc2))
+                     && (si + 1 == slf.len() ==> final_err(slf, oth, acc2)),
+            }
+        }),
+{
+    lemma_ordered(oth, oi, oi);
+    if hi < oth[oi].lo() {
+        // nothing of [lo, hi] is in other
+        assert forall|x: int| #[trigger] in_view(acc, x) <==> (in_view(slf, x) && in_view(oth, x) && x <= hi) by {
+            if in_view(oth, x) && lo <= x <= hi { lemma_locate_at(oth, oi, x); }
+        }
+        lemma_self_done(slf, oth, si, oi, hi, acc);
+    } else if hi <= oth[oi].hi() {
+        lemma_keep(slf, oth, si, oi, lo, hi, acc, keep.unwrap());
+    } else {
+        let b = keep.unwrap();
+        let p = acc.push(b);
+        lemma_push_step(slf, oth, si, oi, lo, hi, acc, b);
+        let l = oth[oi].hi() + 1;
+        assert forall|x: int| #[trigger] in_view(p, x) <==> (in_view(slf, x) && in_view(oth, x) && x < l) by {}
+    }
+}
+
+} // mod lem
+
+proof fn reach_trim<T: Block>(b: T)
+    requires b.lo() <= b.hi(),
+    ensures canonical(seq![b]), canonical(Seq::<T>::empty()), in_view(seq![b], b.lo()),
+{
+    assert(seq![b][0] == b);
+}
 
 impl<T: Block> OwnedChain<T> {
     //@fn src/repository/resources/chain.rs :: impl<T: Block> OwnedChain<T> :: from_vec_unchecked
@@ -18,7 +429,16 @@ impl<T: Block> OwnedChain<T> {
 
     //@fn src/repository/resources/chain.rs :: impl<T: Block> OwnedChain<T> :: empty
     //@spec
-        ensures r.0@ == Seq::<T>::empty(),
+        ensures r.0@.len() == 0,
+    //@/spec
+    //@end
+}
+
+impl<T: Block> core::ops::Deref for Chain<T> {
+    type Target = [T];
+    //@fn src/repository/resources/chain.rs :: impl<T: Block> ops::Deref for Chain<T> :: deref
+    //@spec
+        ensures r@ == self.0@,
     //@/spec
     //@end
 }
@@ -30,30 +450,97 @@ impl<T: Block> Chain<T> {
     //@/spec
     //@end
 
+    // loopiso + break-only loop clauses (invariant_except_break / ensures) need this verifier switch
+    #[verifier::allow_complex_invariants]
     //@fn src/repository/resources/chain.rs :: impl<T: Block> Chain<T> :: trim loopiso
     //@sigsub R4 "<C: AsRef<Chain<T>>>" ""
     //@sigsub R4 "other: &C" "other: &Chain<T>"
     //@sub R4 "let other = other.as_ref();" "let other = other;"
+    //@sub R2 ".map(|item| (item.min(), item.max()))" ".map(|item| -> (p: (T::Item, T::Item)) ensures T::val(p.0) == item.lo(), T::val(p.1) == item.hi() { (item.min(), item.max()) })"
     //@spec
         requires canonical(self.0@), canonical(other.0@),
+        ensures
+            r.is_ok() ==> view_subset(self.0@, other.0@),
+            r.is_err() ==> canonical(r.unwrap_err().0@)
+                && forall|x: int| in_view(r.unwrap_err().0@, x) <==> (in_view(self.0@, x) && in_view(other.0@, x)),
+            // completeness of Ok, except: both chains empty returns Err(empty chain) (other is tested first)
+            view_subset(self.0@, other.0@) && (self.0@.len() > 0 || other.0@.len() > 0) ==> r.is_ok(),
     //@/spec
     //@ghost begin
-        proof { T::ord_law(); }
+        proof {
+            T::ord_law();
+            lem::lemma_slice_len(&self.0);
+            if self.0@.len() > 0 { lem::lemma_in_block(self.0@, 0, self.0@[0].lo()); }
+        }
     //@/ghost
-    //@sub R2 ".map(|item| (item.min(), item.max()))" ".map(|item| -> (p: (T::Item, T::Item)) ensures T::val(p.0) == item.lo(), T::val(p.1) == item.hi() { (item.min(), item.max()) })"
+    //@ghost before "let mut res: Result<usize, Vec<_>> = Ok(0);"
+        proof { lem::lemma_init(self.0@, other.0@); }
+    //@/ghost
     //@loop "loop"
-            invariant true,
-            decreases 0int,
+            invariant_except_break
+                other_iter.decrease().is_some(), self_iter.decrease().is_some(),
+                lem::iter_at(other_iter.remaining(), other.0@),
+                other_iter.remaining().len() < other.0@.len(),
+                *other_item == other.0@[other.0@.len() - 1 - other_iter.remaining().len()],
+                lem::iter_at(self_iter.remaining(), self.0@),
+                self_iter.remaining().len() < self.0@.len(),
+                res matches Ok(i) ==> i == self.0@.len() - 1 - self_iter.remaining().len(),
+                lem::inv(self.0@, other.0@,
+                    self.0@.len() - 1 - self_iter.remaining().len(), other.0@.len() - 1 - other_iter.remaining().len(),
+                    T::val(self_item.0), T::val(self_item.1), res.is_ok(), lem::acc_of(res, self.0@)),
+            ensures
+                res matches Ok(i) ==> i <= self.0@.len(),
+                lem::final_ok(self.0@, other.0@, lem::acc_of(res, self.0@)),
+                !view_subset(self.0@, other.0@),
+            decreases other_iter.decrease().unwrap(), self_iter.decrease().unwrap(), T::val(self_item.1) - T::val(self_item.0),
     //@/loop
-    //@end
-}
-
-impl<T: Block> core::ops::Deref for Chain<T> {
-    type Target = [T];
-    //@fn src/repository/resources/chain.rs :: impl<T: Block> ops::Deref for Chain<T> :: deref
-    //@spec
-        ensures r@ == self.0@,
-    //@/spec
+    //@ghost before "match other_iter.next() {"
+                proof {
+                    lem::lemma_adv_other(self.0@, other.0@,
+                        self.0@.len() - 1 - self_iter.remaining().len(), other.0@.len() - 1 - other_iter.remaining().len(),
+                        T::val(self_item.0), T::val(self_item.1), res.is_ok(), lem::acc_of(res, self.0@));
+                }
+    //@/ghost
+    //@ghost before "match res {" nth=0
+                proof {
+                    let si = self.0@.len() - 1 - self_iter.remaining().len();
+                    let oi = other.0@.len() - 1 - other_iter.remaining().len();
+                    let acc = lem::acc_of(res, self.0@);
+                    if res.is_ok() {
+                        lem::lemma_covered_ok(self.0@, other.0@, si, oi, T::val(self_item.0), T::val(self_item.1));
+                    } else {
+                        assert forall|b: T| b.lo() == T::val(self_item.0) && b.hi() == T::val(self_item.1) implies
+                            (si + 1 < self.0@.len() ==> lem::inv(self.0@, other.0@, si + 1, oi, self.0@[si + 1].lo(), self.0@[si + 1].hi(), false, #[trigger] acc.push(b)))
+                            && (si + 1 == self.0@.len() ==> lem::final_err(self.0@, other.0@, acc.push(b)))
+                        by {
+                            lem::lemma_covered_err(self.0@, other.0@, si, oi, T::val(self_item.0), T::val(self_item.1), acc, b);
+                        }
+                    }
+                }
+    //@/ghost
+    //@ghost before "if let Some(keep) = keep {"
+                proof {
+                    let si = self.0@.len() - 1 - self_iter.remaining().len();
+                    let oi = other.0@.len() - 1 - other_iter.remaining().len();
+                    let v = res.unwrap_err()@;
+                    if !lem::inv(self.0@, other.0@, si, oi, T::val(self_item.0), T::val(self_item.1), false, v) {
+                        lem::lemma_to_err(self.0@, other.0@, si, oi, T::val(self_item.0), T::val(self_item.1), v);
+                    }
+                    lem::lemma_else(self.0@, other.0@, si, oi, T::val(self_item.0), T::val(self_item.1), v, keep,
+                        match redo { Some(p) => Some(T::val(p.0)), None => None });
+                }
+    //@/ghost
+    //@ghost before "let res = match res {"
+        proof {
+            if let Ok(i) = res {
+                assert forall|v: Seq<T>| #[trigger] lem::clone_seq(self.0@.subrange(0, i as int), v) implies
+                    canonical(v) && (forall|x: int| in_view(v, x) <==> (in_view(self.0@, x) && in_view(other.0@, x)))
+                by {
+                    lem::lemma_clone_seq(self.0@.subrange(0, i as int), v);
+                }
+            }
+        }
+    //@/ghost
     //@end
 }
 
